@@ -7,10 +7,15 @@ package v2
 import (
 	"fmt"
 	"os"
+	"sort"
 	"syscall"
 	"testing"
 
+	"github.com/nuts-foundation/nuts-node/crypto/hash"
+	"github.com/nuts-foundation/nuts-node/network/dag"
+
 	"verif/ev"
+	"verif/fault"
 )
 
 type vc07LargePair struct {
@@ -70,9 +75,12 @@ func vc07LargePairs() []vc07LargePair {
 //	reorder    moved to the end of the FIFO
 //	delay      held back until the next round (arrives after the clock passed the conversation validity)
 //	lexpire    the clock passes the validity and both evictions run just before it is delivered
+//	kvfail     delivered while the At-th KV step of the receiving node's handler fails (storage fault; L = label of that step)
 type vc07Dev struct {
 	Pos  int    `json:"pos"`
 	Kind string `json:"kind"`
+	At   int    `json:"at,omitempty"`
+	L    string `json:"l,omitempty"`
 }
 
 var vc07DevKinds = []string{"drop", "dup-now", "dup-late", "dup-stale", "reorder", "delay", "lexpire"}
@@ -90,6 +98,9 @@ type vc07LargeResult struct {
 	clause     string
 	detail     string
 	kinds      map[string]int
+	// per delivery position: the KV step trace of the handler and, for a TransactionList, the clocks of its transactions (only when asked for)
+	traces map[int][]fault.Step
+	clocks map[int][]uint32
 	// storage / message-size seams
 	fired        bool   // a planned storage fault fired
 	firedLabel   string // at which step
@@ -100,19 +111,37 @@ type vc07LargeResult struct {
 
 // vc07RunLarge executes the fair schedule with the given deviations.
 func vc07RunLarge(t testing.TB, dir string, u *vc07Universe, tpl *vc07Template, devs []vc07Dev, rmax int, outcome func(string)) vc07LargeResult {
+	return vc07RunLargeTraced(t, dir, u, tpl, devs, rmax, outcome, false)
+}
+
+// vc07RunLargeTraced: traced = record, per delivery position of a TransactionList, the KV step trace and the transaction clocks.
+func vc07RunLargeTraced(t testing.TB, dir string, u *vc07Universe, tpl *vc07Template, devs []vc07Dev, rmax int, outcome func(string), traced bool) vc07LargeResult {
 	w := vc07Build(t, dir, u, tpl, [2][]int{})
 	defer w.close()
 	w.outcome = outcome
-	res := vc07LargeResult{rounds: -1, kinds: map[string]int{}}
+	res := vc07LargeResult{rounds: -1, kinds: map[string]int{}, traces: map[int][]fault.Step{}, clocks: map[int][]uint32{}}
 	devAt := map[int]string{}
+	failAt := map[int]int{}
 	for _, d := range devs {
 		devAt[d.Pos] = d.Kind
+		failAt[d.Pos] = d.At
 	}
 	var held []*vc07Msg
 	pos := 0
 	deliver := func(m *vc07Msg) {
-		res.kinds[vc07Kind(vc07Decode(m.Raw))]++
+		env := vc07Decode(m.Raw)
+		res.kinds[vc07Kind(env)]++
 		w.handle(m.To, m.Raw)
+		if tl := env.GetTransactionList(); traced && tl != nil {
+			res.traces[pos-1] = w.lastTrace
+			var cl []uint32
+			for _, x := range tl.Transactions {
+				if i, ok := u.idx[hash.SHA256Sum(x.Data)]; ok {
+					cl = append(cl, u.Clock[i])
+				}
+			}
+			res.clocks[pos-1] = cl
+		}
 	}
 	safety := func(full bool) bool {
 		// between rounds the cheap listing (presence of every universe transaction + digests) is used; the
@@ -184,6 +213,13 @@ func vc07RunLarge(t testing.TB, dir string, u *vc07Universe, tpl *vc07Template, 
 				w.apply(vc07Event{K: "expire", N: 0})
 				w.nodes[1].p.cMan.evict()
 				deliver(m)
+			case "kvfail":
+				res.kinds[vc07Kind(vc07Decode(m.Raw))]++
+				w.handleKV(m.To, m.Raw, failAt[pos-1])
+				if w.lastFired {
+					res.fired, res.firedLabel = true, w.lastStep.Label()
+				}
+				safety(false) // the aggregates are judged right after the failed step (the roll-back must have restored them)
 			default:
 				panic("unknown deviation " + kind)
 			}
@@ -194,7 +230,58 @@ func vc07RunLarge(t testing.TB, dir string, u *vc07Universe, tpl *vc07Template, 
 	}
 	res.deliveries = pos
 	res.steps = w.steps
+	res.oversize, res.oversizeKind, res.maxEnvelope = w.oversize, w.oversizeKind, w.maxEnvelope
 	return res
+}
+
+// vc07KVDevs selects the storage-fault deviations of one fair run: for every delivered TransactionList, the State.Add of its
+// first, second and last transaction and of every transaction whose clock is the last of a page, the first or the second of the
+// next (dag.PageSize: tree leaf boundaries) — for each of these Adds every failable KV step (its read and every begin / put /
+// commit of its write transaction). The mapping Add <-> transaction needs one write transaction per listed transaction;
+// otherwise only the first and the last write transaction are taken.
+func vc07KVDevs(base vc07LargeResult) []vc07Dev {
+	var out []vc07Dev
+	var positions []int
+	for p := range base.traces {
+		positions = append(positions, p)
+	}
+	sort.Ints(positions)
+	for _, p := range positions {
+		trace, clocks := base.traces[p], base.clocks[p]
+		txs := 0
+		for _, st := range trace {
+			if st.Tx > txs {
+				txs = st.Tx
+			}
+		}
+		if txs == 0 {
+			continue
+		}
+		want := map[int]bool{1: true, 2: true, txs: true}
+		if txs == len(clocks) {
+			for i, c := range clocks {
+				if m := c % dag.PageSize; m == dag.PageSize-1 || m == 0 || m == 1 {
+					want[i+1] = true
+				}
+			}
+		}
+		// a read step (Tx 0) belongs to the write transaction that follows it
+		next := make([]int, len(trace))
+		cur := 0
+		for i := len(trace) - 1; i >= 0; i-- {
+			if trace[i].Tx > 0 {
+				cur = trace[i].Tx
+			}
+			next[i] = cur
+		}
+		for i, st := range trace {
+			if !fault.Applicable(st.Kind, fault.Error) || !want[next[i]] {
+				continue
+			}
+			out = append(out, vc07Dev{Pos: p, Kind: "kvfail", At: st.N, L: st.Label()})
+		}
+	}
+	return out
 }
 
 func TestVerifC07Large(t *testing.T) {
@@ -239,7 +326,7 @@ func TestVerifC07Large(t *testing.T) {
 	r.Rule("structured large pairs with the shipped constants (PageSize 512, 1024 IBLT buckets): one side 1300 behind; disjoint branches of 600 " +
 		"(symmetric difference 1200 > one IBLT decodes); equal clocks with a 3-transaction difference in the first of three pages; fork after 600 with 450 on each side. " +
 		"Each is run along the fair schedule (expire, tick A, tick B, deliver FIFO) once without deviation and then once per (delivery position, deviation kind) " +
-		"with kinds drop, dup-now, dup-late, dup-stale, reorder, delay (to the next round, past the conversation validity), lexpire (quick tier: drop, dup-stale, delay, lexpire; the last pair drop and lexpire only); thorough adds, for the first two pairs, all pairs of " +
+		"with kinds drop, dup-now, dup-late, dup-stale, reorder, delay (to the next round, past the conversation validity), lexpire, and kvfail (storage fault: a TransactionList is delivered while one KV step of a State.Add fails — every failable step of the Adds of the first, second and last transaction of the list and of the transactions at a page boundary; on the old-page-difference pair, thorough also on the pair that is 1300 behind) (quick tier: drop, dup-stale, delay, lexpire; the last pair drop and lexpire only); thorough adds, for the first two pairs, all pairs of " +
 		"{drop, dup-stale, lexpire} deviations. A case is (pair, deviations).")
 	r.Bound("large_pairs", len(pairs))
 	r.Bound("R_max_allowed_large", rmax)
@@ -253,7 +340,10 @@ func TestVerifC07Large(t *testing.T) {
 		}
 		u := vc07NewUniverse(p.Name, p.Prevs)
 		tpl := vc07MakeTemplate(t, dir, u, p.Init)
-		base := vc07RunLarge(t, dir, u, tpl, nil, rmax, outcome)
+		// storage faults (kvfail) along the fair run: the pair whose difference lies in the first of three pages (the roll-back reloads
+		// a three-page tree) in both tiers; the pair that is 1300 behind (lists of hundreds of transactions crossing pages) in thorough
+		wantKV := pi == 2 || (r.Thorough() && pi == 0)
+		base := vc07RunLargeTraced(t, dir, u, tpl, nil, rmax, outcome, wantKV)
 		if base.clause != "" {
 			r.Violation(vc07LargeSig(p.Name, base.clause, nil), base.detail, vc07LargeReplay{Large: p.Name})
 			continue
@@ -277,6 +367,9 @@ func TestVerifC07Large(t *testing.T) {
 			states += res.checked
 			trans += res.steps
 			r.Eval(fmt.Sprintf("%s %v", p.Name, devs))
+			if res.fired {
+				r.Outcome("storage-fault:" + res.firedLabel)
+			}
 			if res.clause != "" {
 				r.Violation(vc07LargeSig(p.Name, res.clause, devs), res.detail, vc07LargeReplay{Large: p.Name, Devs: devs})
 				return
@@ -300,6 +393,13 @@ func TestVerifC07Large(t *testing.T) {
 				run([]vc07Dev{{Pos: pos, Kind: k}})
 			}
 		}
+		if wantKV {
+			kv := vc07KVDevs(base)
+			r.Bound("storage_fault_deviations_"+p.Name, len(kv))
+			for _, d := range kv {
+				run([]vc07Dev{d})
+			}
+		}
 		if r.Thorough() && base.deliveries <= 40 && pi < 2 {
 			k2 := []string{"drop", "dup-stale", "lexpire"}
 			for p1 := 0; p1 < base.deliveries; p1++ {
@@ -318,6 +418,7 @@ func TestVerifC07Large(t *testing.T) {
 	var ru syscall.Rusage
 	_ = syscall.Getrusage(syscall.RUSAGE_SELF, &ru)
 	r.Extra("cpu_seconds", float64(ru.Utime.Sec+ru.Stime.Sec)+float64(ru.Utime.Usec+ru.Stime.Usec)/1e6)
+	r.Bound("cpu_seconds_of_this_worker", int(ru.Utime.Sec+ru.Stime.Sec))
 	r.States(states)
 	r.Transitions(trans)
 }
@@ -331,6 +432,9 @@ func vc07LargeSig(pair, clause string, devs []vc07Dev) string {
 				cls += "+"
 			}
 			cls += d.Kind
+			if d.L != "" {
+				cls += "(" + d.L + ")"
+			}
 		}
 	}
 	return fmt.Sprintf("C07|large:%s|%s|%s", pair, clause, cls)
